@@ -163,6 +163,7 @@ pub fn worker(args: &[String]) -> i32 {
     let time_cap: f64 = args.get(6).and_then(|s| s.parse().ok()).unwrap_or(1e9);
     let plan = plan(prop).expect("unknown property");
     let props = props_for(prop);
+    crate::case::THOROUGH.store(tier != "quick", std::sync::atomic::Ordering::Relaxed);
     let ctx = Ctx::new();
     let start = Instant::now();
     let mut counters: BTreeMap<String, u64> = BTreeMap::new();
